@@ -6,6 +6,19 @@ DIFF_NOTE = ("Trusted: Lean 4.33 kernel (axioms propext, Classical.choice, Quot.
              "than verified: the Go analyser itself (hand-written Lean transcription, one function per Go function, explicit panics, fuel), "
              "float formatting of DiffInfo, x- extensions (oracle sweep only).")
 CLAIMED = {
+ "C01": {
+  "technique": "Lean 4 proof (name-mangler invariants and format-table consistency over tables regenerated from the live code and from go/build) + generate-and-compile oracle over table-directed specs, a fixed shape corpus and single-adversarial-name specs",
+  "text": ("Proof, partial: over tables regenerated on every run (LanguageOpts.ReservedWords and the manglers' behaviour on probe names; go/build's own decision about which file-name endings carry a build "
+           "constraint; the live type/format/zero/converter/formatter tables): reserved_is_go_keywords, mangleVar_not_keyword (for ALL names), tokens_covered + appended_is_neutral => file_never_excluded (for "
+           "ALL names, no generated file is left out by go build on any platform), special_dirs_renamed, strfmt_formats_have_formatter / _have_zero, numeric_formats_convert, converters_formatters_paired. "
+           "Not proved: that template output is well-typed Go - there is no model of the Go type checker; that part is decided by compiling: (a) one definition per build token and every format in every "
+           "parameter position, (b) a FIXED corpus of specs covering every schema shape / parameter location / collectionFormat / response layout, generated as server+client and as cli under minimal flatten, "
+           "full flatten and expand, (c) a fixed small spec with ONE adversarial name (188-name pool: keywords, predeclared and generated-code identifiers, file-name tokens, punctuation, digits, non-ASCII) at "
+           "ONE of 12 positions; quick samples (c), thorough runs all 2200 pairs. The pinned tree fails on a long tail of names and shape combinations: each is a known finding keyed by (position, name or "
+           "name class, phase) or by corpus index."),
+  "note": ("Trusted: Lean kernel + audited axioms; the translator (live tables through verif accessors, go/build probe); genlab in-process generation through the real CLI plumbing, run from the module root; "
+           "`go build` as the judge; go-openapi/validate as the judge of a valid spec. Modelled rather than verified: nothing of the templates. Exploration, not proof: (a)-(c)."),
+ },
  "C02": {
   "technique": "Lean 4 proof (reference validity semantics; theorem that the documented relaxation can only matter on explicit zero values) + compiled generated models vs the semantics, calibrated against go-openapi/validate",
   "text": ("Proof, partial: `valid` is the draft-4/Swagger-2.0 subset semantics, `validSkip` the same with the documented relaxation applied wherever it may apply; "
